@@ -135,7 +135,7 @@ fn gen_data_complete(ctx: &GenCtx) -> Vec<Value> {
 }
 
 fn gen_data_sound(ctx: &GenCtx) -> Vec<Value> {
-    let n = ctx.n(450, 60_000);
+    let n = ctx.n(450, 20_000);
     let mut plans: Vec<Value> = Vec::new();
     // contents one octet short of / exactly on the 512-byte and 8 KiB internal buffers: the
     // extension / truncation mutations then cross the boundary
